@@ -9,7 +9,10 @@ TITLE = "Cutting along singularities yields a disk with faces in bijection"
 LEAN_MODULES = ["Mouette.Props.C16"]
 REQUIRED_THEOREMS = ["faces_in_bijection", "ref_vertex_face_by_face", "ref_vertex_onto", "output_vertices_all_used",
                      "corner_positions_preserved", "glued_only_if_linked", "glued_same_vertex", "uncut_edges_glued",
-                     "stable_roots", "prune_keeps_singular_core", "prune_subset", "prune_keeps_loops"]
+                     "stable_roots", "prune_keeps_singular_core", "prune_subset", "prune_keeps_loops", "faces_nested",
+                     "prune_queue_empty", "prune_fixpoint", "prune_fixpoint_run", "vertex_count", "twin_sides_shared",
+                     "edge_count_partial", "euler_characteristic_partial", "euler_formula_partial", "euler_iff_vertex_count",
+                     "euler_formula_of_report"]
 TRUSTED = [
     "Lean 4.33.0 kernel; axioms ⊆ {propext, Classical.choice, Quot.sound}",
     "hand-written model Mouette/Model/Cutting.lean (_build_cut_edges_tree, _prune_edge_tree, _build_mesh_with_cuts over the C20 "
@@ -152,9 +155,47 @@ def model_request(case):
     return f"cut {rec['nV']} {_faces(case['F'])} {E} {_nats(rec['evisited'])} {_nats(case['sing'])} {_nats(rec['interior'])}"
 
 
+def _check_euler(case, xsec, ip):
+    """the model's Euler report `X V' eff |uncut| hyp` against the implementation's own output mesh"""
+    t = xsec.split()
+    if len(t) != 5 or t[0] != "X" or any(len(f) != 3 for f in case["F"]):
+        return None     # the Euler theorems are about triangle lists
+    Vp, eff, u, hyp = int(t[1]), int(t[2]), int(t[3]), t[4]
+    ftoks = ip[3].split()
+    if ftoks[0] != "B" or ftoks[1].startswith("err"):
+        return None
+    nF = int(ftoks[1]); faces = []; k = 2
+    for _ in range(nF):
+        m = int(ftoks[k]); faces.append([int(x) for x in ftoks[k + 1:k + 1 + m]]); k += 1 + m
+    nOut = len(ip[4].split())
+    if Vp != nOut:
+        return f"model vertex count V'={Vp} / implementation has {nOut} output vertices"
+    so = G.surface_stats(nOut, faces)
+    if hyp == "0":
+        # legitimate only when, on the implementation's mesh too, some sides coincide without coming from an uncut edge (the
+        # one-edge slit, an open finding reported by the oracle): then the number of interior edges differs from |uncut|
+        if so["manifold"] and so["E"] - so["border_edges"] == u:
+            return ("the model reports that the edge hypotheses of the Euler theorem fail although the implementation's mesh is a "
+                    "manifold whose interior edges are exactly the uncut edges")
+        return None
+    if hyp == "1":
+        chi_model = nF + u - eff
+        if so["chi"] != chi_model:
+            return f"Euler characteristic: model formula F+|uncut|-effective = {chi_model} / measured on the implementation's mesh {so['chi']}"
+    return None
+
+
 def compare(case, model, impl):
     if model == impl:
         return None
+    mp0 = model.split(" ; ")
+    if len(mp0) == 8 and mp0[7].startswith("X"):
+        why = _check_euler(case, mp0[7], impl.split(" ; "))
+        if why:
+            return why
+        model = " ; ".join(mp0[:7])
+        if model == impl:
+            return None
     # positions: the model names the original vertex whose position is carried; canonicalise to the first vertex
     # with the same coordinates
     mp, ip = model.split(" ; "), impl.split(" ; ")
@@ -403,7 +444,14 @@ MANIFEST = {
                    "across uncut interior edges (for every labelling constant on the union pairs) and every uncut interior edge IS shared "
                    "(only the cut edges are opened); the second round of find returns the first round's roots; pruning only removes edges "
                    "and never removes an edge of a sub-graph whose leaves are all singular (paths between singularities, homology loops, "
-                   "border loops: cut graph ⊇ border). NOT proved - checked on every run by the oracle with an independent routine "
+                   "border loops: cut graph ⊇ border); pruning TERMINATES within the model's fuel with an empty queue (the driver's Q0 is a theorem) "
+                   "at a FIXPOINT: no non-singular vertex of degree 1 is left (prune_fixpoint). Euler count, PARTIAL: V' = number of union-find "
+                   "classes of corners = 3F - (effective unions) (vertex_count); the two sides of every uncut edge are one undirected edge "
+                   "of the output (twin_sides_shared); IF sides of the output coincide only when glued and no corner starts two glued sides "
+                   "(explicit hypotheses sep/hR/hdisj) THEN E' = 3F - |uncut| (edge_count_partial) and chi = F + |uncut| - effective unions "
+                   "(euler_formula_partial); with |uncut| = F-1, chi = 1 is EQUIVALENT to 'all 2|uncut| corner unions are effective', i.e. "
+                   "V' = F+2 (euler_iff_vertex_count, euler_characteristic_partial) - that last implication from the dual spanning tree is "
+                   "not formalised. NOT proved - checked on every run by the oracle with an independent routine "
                    "(surface_stats): the cut mesh is ONE component with ONE border loop and Euler characteristic 1 (tree-cotree theorem), "
                    "every singular vertex has a copy on that border, the cut graph is connected, the closed sphere with < 2 singularities "
                    "is left uncut. The stages before the cut graph (shortest paths, Kruskal on paths, dual Dijkstra, feature forest) are "
